@@ -99,6 +99,10 @@ class SimClock(task.Clock):
         return self.callLater(delay, call)
 
 
+def _noop():
+    return None
+
+
 class Chunker(object):
     """Decides how a server->client byte string is cut for delivery."""
 
@@ -218,10 +222,12 @@ class SimConn(object):
     # -- client side -------------------------------------------------------
     def _client_write(self, data):
         now = self.clock.seconds()
-        if self.client_closing or self.client_lost:
+        if self.client_aborted or self.client_lost:
             self.writes_after_close += 1
             self.net.log.append(("write_after_close", now, self.id, len(data)))
             return
+        # Twisted's TCP transport still sends what is written after loseConnection() in the same
+        # reactor turn (the connection closes once the write buffer has drained), so do we.
         self.c2s.append((now, data))
         self.net.log.append(("c2s", now, self.id, data))
         start = self.c2s_bytes
@@ -254,21 +260,19 @@ class SimConn(object):
             self.server.data_received(self, data)
 
     _c2s_dead = False
+    client_aborted = False
     _c2s_cut = False
 
     def _client_lose(self, abort):
         if self.client_closing or self.client_lost:
             return
         self.client_closing = True
+        self.client_aborted = abort
         self.transport.disconnecting = True
         now = self.clock.seconds()
         self.net.log.append(("client_close", now, self.id, abort))
         reason = ConnectionLost("aborted") if abort else ConnectionDone()
         self.clock.labelled(0, "net.client_conn_lost", self._client_conn_lost, reason)
-        if not self.server_gone:
-            at = max(now + self.net.latency(), self._c2s_last)
-            self._c2s_last = at
-            self.clock.labelled(at - now, "net.server_eof", self._server_eof)
 
     def _server_eof(self):
         if self.server_gone:
@@ -285,12 +289,20 @@ class SimConn(object):
         self.closed_at = self.clock.seconds()
         self.net.log.append(("conn_lost", self.closed_at, self.id, type(reason).__name__))
         self.net.open_conns.discard(self)
+        if not self.server_gone:
+            # the peer sees EOF after everything the client managed to write
+            now = self.clock.seconds()
+            at = max(now + self.net.latency(), self._c2s_last)
+            self._c2s_last = at
+            self.clock.labelled(at - now, "net.server_eof", self._server_eof)
         if self.client_proto is not None:
             self.client_proto.connectionLost(Failure(reason))
 
     # -- server side -------------------------------------------------------
-    def server_send(self, data, label="net.s2c"):
-        """Queue bytes from the server to the client."""
+    def server_send(self, data, label="net.s2c", ghost=False):
+        """Queue bytes from the server to the client.  ghost=True consumes the
+        same random draws, schedules the same events and honours the same cut
+        points, but delivers nothing (used by differential re-runs)."""
         if self.server_gone or not data:
             return
         start = self.s2c_sent
@@ -301,7 +313,8 @@ class SimConn(object):
             cut = True
         if data:
             if self.chunker.mode == "coalesce":
-                self._pending.extend(data)
+                if not ghost:
+                    self._pending.extend(data)
                 if self._flush_dc is None:
                     at = max(self.clock.seconds() + self.net.latency(), self._s2c_last)
                     self._s2c_last = at
@@ -310,14 +323,18 @@ class SimConn(object):
                 for chunk in self.chunker.cut(data):
                     at = max(self.clock.seconds() + self.net.latency(), self._s2c_last)
                     self._s2c_last = at
-                    self.clock.labelled(at - self.clock.seconds(), label, self._deliver_s2c, chunk)
+                    if ghost:
+                        self.clock.labelled(at - self.clock.seconds(), label, _noop)
+                    else:
+                        self.clock.labelled(at - self.clock.seconds(), label, self._deliver_s2c, chunk)
         if cut:
             self.sever("cut_s2c")
 
     def _flush(self):
         self._flush_dc = None
         data, self._pending = bytes(self._pending), bytearray()
-        self._deliver_s2c(data)
+        if data:
+            self._deliver_s2c(data)
 
     def _deliver_s2c(self, data):
         if self.client_closing or self.client_lost:
@@ -430,11 +447,11 @@ class SimNet(object):
     def _connect(self, host, port, factory):
         now = self.clock.seconds()
         att = Attempt(now, host, port, self.owner)
+        outcome, lat = self._decide(host, port)
         self.attempts.append(att)
         self.log.append(("connect", now, host, port))
         for h in self.connect_hooks:
             h(att)
-        outcome, lat = self._decide(host, port)
         if lat is None:
             lat = self.latency()
         dc_box = []
